@@ -166,6 +166,18 @@ func cycles(c *core.Ctx, r *core.Result, idx int, rng *rand.Rand, verbose bool) 
 	}
 	st := map[string]string{"ResetOnLogon": yn(cf.RLogon), "ResetOnLogout": yn(cf.RLogout), "ResetOnDisconnect": yn(cf.RDisconnect), "RefreshOnLogon": yn(cf.Refresh),
 		"ResetSeqTime": "12:00:00", "EnableResetSeqTime": "Y"}
+	// the reset time is a wall-clock time of the configured zone, which need not be the zone of the process clock
+	rsZone := core.Pick(rng, "", "", "Asia/Tokyo", "America/New_York", "Pacific/Kiritimati", "Pacific/Pago_Pago")
+	rsTime := core.Pick(rng, "12:00:00", "08:00:00", "23:30:00", "00:20:00")
+	st["ResetSeqTime"] = rsTime
+	rsLoc := time.UTC
+	if rsZone != "" {
+		st["TimeZone"] = rsZone
+		var lerr error
+		if rsLoc, lerr = time.LoadLocation(rsZone); lerr != nil {
+			panic("harness: " + lerr.Error())
+		}
+	}
 	dir := ""
 	if cf.Store != "memory" {
 		dir = storelab.TempDir(c.TmpDir, "c07-")
@@ -400,10 +412,12 @@ func cycles(c *core.Ctx, r *core.Result, idx int, rng *rand.Rand, verbose bool) 
 		}
 		if hasFlag && rng.Intn(6) == 0 {
 			// ResetSeqTime is crossed while connected: the engine sends a Logon with ResetSeqNumFlag=Y, which is number 1
-			day := time.Date(2026, 9, 21+cyc, 0, 0, 0, 0, time.UTC)
-			l.CheckResetTime(day.Add(11*time.Hour + 59*time.Minute + 58*time.Second))
+			var rh, rm, rs int
+			fmt.Sscanf(rsTime, "%d:%d:%d", &rh, &rm, &rs)
+			at := time.Date(2026, 9, 21+cyc, rh, rm, rs, 0, rsLoc).UTC() // (the run loop's ticks are instants of the process clock)
+			l.CheckResetTime(at.Add(-2 * time.Second))
 			mark := len(l.Trace)
-			l.CheckResetTime(day.Add(12*time.Hour + time.Second))
+			l.CheckResetTime(at.Add(time.Second))
 			var lg fixwire.Fields
 			for _, e := range l.Trace[mark:] {
 				if e.Kind == "out" {
